@@ -73,6 +73,10 @@ public:
 	int  getExitCode() const;
 	//! Returns the application object that is running.
 	static Application* getInstance();
+#if defined(POTASSCO_LIBPOTASSCO_VERIF)
+	long verifBlocked() const { return blocked_; }
+	long verifPending() const { return pending_; }
+#endif
 	//! Prints the application's help information (called if options contain '--help').
 	virtual void        printHelp(const ProgramOptions::OptionContext& root);
 	//! Prints the application's version message (called if options contain '--version').
